@@ -184,7 +184,7 @@ def validate_trace(module, cfg_text, trace_path, timeout=900):
     Returns dict(violations=[{scenario, names, line}], binding_lost=[...], lines, scenarios, tlc_states)."""
     scen = list(split_scenarios(trace_path))
     ids = [i for i, _ in scen if i is not None]
-    res = run_tlc(module, cfg_text, files={"trace.ndjson": trace_path}, workers=1, timeout=timeout, java_opts="-Xss64m")
+    res = run_tlc(module, cfg_text, files={"trace.ndjson": trace_path}, workers=1, timeout=timeout, java_opts="-Xss64m -Xmx6g")
     out = res["out"]
     violations = [{"scenario": m.group(1), "names": parse_set(m.group(2)), "line": int(m.group(3))}
                   for m in RE_VIOLATED.finditer(out)]
